@@ -35,6 +35,24 @@ let big_ocamlstr (l : char list) : string =
   List.iter (Buffer.add_char b) l;
   Buffer.contents b
 
+(* kernel cross-check helpers: a system as a tree in the pipe syntax, or (big) when the expanded trees exceed [budget] nodes *)
+let rec within (e : expr) (b : int) : int =
+  if b <= 0 then -1 else List.fold_left (fun r c -> if r < 0 then r else within c r) (b - 1) (children e)
+let sys_text (s : sys) : string =
+  let open Sexp in
+  let e = sexp_of_expr in
+  to_string (List [ Atom "sys";
+         List (Atom "inputs" :: List.map e s.s_inputs);
+         List (Atom "states" :: List.map (fun st ->
+             List ([Atom "state"; e st.st_sym]
+                   @ (match st.st_init with Some i -> [List [Atom "init"; e i]] | None -> [])
+                   @ (match st.st_next with Some n -> [List [Atom "next"; e n]] | None -> []))) s.s_states);
+         List (Atom "outputs" :: List.map (fun (n, x) -> List [Str (big_ocamlstr n); e x]) s.s_outputs);
+         List (Atom "bads" :: List.map e s.s_bads);
+         List (Atom "constraints" :: List.map e s.s_constraints) ])
+let sys_text_bounded (budget : int) (s : sys) : string =
+  if List.fold_left (fun r c -> if r < 0 then r else within c r) budget (all_exprs s) >= 0 then sys_text s else "(big)"
+
 type dag = { nodes : expr array; kids : int list array }
 
 type isys = {
@@ -342,6 +360,13 @@ let handle_c08 (x : Sexp.t) : string =
   if big_array_eq then Registry.result ~id ~status:"skip" ~key:"array-eq-large-index" () else
   let sem0 = sem_text zero_val ctext in
   let semclass = match sem0 with B2Ok _ -> "well-formed" | B2Err e -> sem_err_name e in
+  (* kernel cross-check: verdict of the reference interpreter under the all-zero valuation, and the reader model's class / system *)
+  Registry.set_model_lazy (fun () ->
+      Printf.sprintf "(c08 %s %s)" semclass
+        (match parse_text_raw_v code_variant dbg ctext with
+         | POk (raw, ren) -> Printf.sprintf "(ok %d %s)" (List.length ren) (sys_text_bounded 4000 (demote raw))
+         | PErr -> "err"
+         | PPanic _ -> "panic"));
   match impl with
   | Sexp.List (Sexp.Atom "panic" :: loc :: _) ->
       (match sem0 with
